@@ -607,3 +607,56 @@ func TestHonest(t *testing.T) {
 	}
 	_ = fmt.Sprint
 }
+
+// FuzzTamper: native coverage-guided fuzzing of the decoders with the
+// independent-verifier oracle in the target: any byte string a decoder accepts
+// must verify independently and its accessors must equal the parsed payload.
+func FuzzTamper(f *testing.F) {
+	for _, d := range fixedTokens()[:4] {
+		tk, priv, err := tok.Build(d)
+		if err != nil {
+			continue
+		}
+		sealed, _, _ := tk.ToSealed(priv)
+		f.Add(sealed)
+	}
+	f.Fuzz(func(t *testing.T, in []byte) {
+		P.Eval()
+		e, perr := env.Parse(in)
+		var verr error
+		var vin tok.View
+		var vinErr error
+		if perr == nil {
+			verr = e.Verify()
+			vin, vinErr = e.View()
+		}
+		for _, d := range cborDecoders {
+			var got token.Token
+			var derr error
+			if pn, _, _ := h.Try(func() { got, derr = d.f(in) }); pn || derr != nil || got == nil {
+				continue
+			}
+			if perr != nil || verr != nil || vinErr != nil {
+				t.Fatalf("VIOLATION-CANDIDATE property=C06 test=fuzz sig=C06/fuzz/accepted-unverifiable replay=%s\n%s accepted %x : parse=%v verify=%v view=%v", saveFuzz(in), d.name, in, perr, verr, vinErr)
+			}
+			v1, err := tok.ViewOf(got)
+			if err != nil {
+				continue
+			}
+			if diff := tok.Diff(vin, v1); diff != "" {
+				t.Fatalf("VIOLATION-CANDIDATE property=C06 test=fuzz sig=C06/fuzz/returned-differs-from-input replay=%s\n%s: %s", saveFuzz(in), d.name, diff)
+			}
+		}
+	})
+}
+
+func saveFuzz(in []byte) string {
+	dir := os.Getenv("VERIF_REPLAY_DIR")
+	if dir == "" {
+		dir = os.TempDir()
+	}
+	_ = os.MkdirAll(dir, 0o755)
+	p := fmt.Sprintf("%s/C06-fuzz-%x.bin", dir, in[:min(8, len(in))])
+	_ = os.WriteFile(p, in, 0o644)
+	return p
+}
